@@ -496,6 +496,11 @@ func (t *trTranslator) needType(u *trUnit, n *types.Named, pos token.Pos) {
 			}
 			fields = append(fields, fmt.Sprintf("  %s : %s", trMangle(f.Name()), ft))
 			zeros = append(zeros, fmt.Sprintf("%s := GoZero.zero", trMangle(f.Name())))
+			if trCapFields[obj.Pkg().Path()+"."+obj.Name()+"."+f.Name()] {
+				// the capacity of the slice, none = unknown after a reallocation (trans_units_tablerender.go)
+				fields = append(fields, fmt.Sprintf("  %s_cap : (Option Int)", trMangle(f.Name())))
+				zeros = append(zeros, fmt.Sprintf("%s_cap := some 0", trMangle(f.Name())))
+			}
 		}
 		var b strings.Builder
 		note := ""
